@@ -56,6 +56,21 @@ def gen_constraints(rng, seq, allow_custom=True, hard=True, custom_kinds=None):
             loc = rloc(rng, min(n, 8), minlen=2)
             L = loc[1] - loc[0]
             cs.append(("EnforceChoice", kw(choices=tuple(sorted({rdna(rng, L) for _ in range(3)})), location=loc)))
+        elif r < 0.93 and hard:
+            # constraints that can pass with slack (score > 0) while still reporting a location
+            if rng.random() < 0.5:
+                loc = rloc(rng, n, strands=(0,), minlen=6)
+                d = dict(minimum_percent=rng.choice([10, 20, 40]), location=loc)
+                if rng.random() < 0.6:
+                    # reference given by the user and already far from the sequence: passes with a margin
+                    ref = list(seq[loc[0]:loc[1]])
+                    for i in range(len(ref)):
+                        if rng.random() < 0.7:
+                            ref[i] = rng.choice([c for c in "ACGT" if c != ref[i]])
+                    d["reference"] = "".join(ref)
+                cs.append(("EnforceChanges", kw(**d)))
+            else:
+                cs.append(("AvoidChanges", kw(max_edits=rng.choice([2, 3, 5]), location=rloc(rng, n, strands=(0,), minlen=6))))
         elif allow_custom:
             word = rng.choice(["AA", "AC", "GG", "TAT", "CG"])
             cls = rng.choice(custom_kinds or ALL_CUSTOM)
@@ -148,6 +163,37 @@ def gen_problem(rng, with_objectives=False, allow_custom=True, custom_kinds=None
             cs.append(("AvoidPattern", kw(pattern=rng.choice(["GGTC", "CGA", "TTA", "AGC"]), location=None)))
         os_ = [("AvoidChanges", kw(boost=rng.choice([0.5, 0.6, 1.0, 2.0]), location=None)),
                ("AvoidPattern", kw(pattern=pat, boost=1.0, location=rng.choice([None, (a + 1, a + ln - 1, 0)])))]
+    fam = rng.random()
+    if with_objectives and fam < 0.1:
+        # keep-region straddling the border of a coding region (its border codon is 6-fold), objectives
+        # that want to change that codon
+        six = ["CTT", "CTC", "CTA", "CTG", "TTA", "TTG", "CGT", "CGC", "CGA", "CGG", "AGA", "AGG",
+               "TCT", "TCC", "TCA", "TCG", "AGT", "AGC"]
+        k = rng.choice([3, 4, 5])
+        strand = rng.choice([1, -1])
+        gene = "".join(rng.choice(six) for _ in range(k))
+        left, right = rdna(rng, rng.choice([3, 6, 9])), rdna(rng, rng.choice([4, 7, 10]))
+        seq = left + (gene if strand == 1 else rcs(gene)) + right
+        a, b = len(left), len(left) + 3 * k
+        if rng.random() < 0.5:
+            keep = (b - rng.choice([1, 2]), min(len(seq), b + rng.randint(2, 6)), 0)
+        else:
+            keep = (max(0, a - rng.randint(2, 3)), a + rng.choice([1, 2]), 0)
+        cs = [("EnforceTranslation", kw(location=(a, b, strand))), ("AvoidChanges", kw(location=keep))]
+        os_ = [("EnforceGCContent", kw(target=rng.choice([0.25, 0.75]), window=rng.choice([4, 8]), boost=1.0, location=None))]
+        if rng.random() < 0.5:
+            os_.append(("AvoidPattern", kw(pattern=rng.choice(["CT", "AG", "TC", "CG"]), boost=1.0, location=None)))
+    elif with_objectives and fam < 0.2:
+        # classes usually used as constraints, here as weighted objectives competing with others
+        n3 = len(seq) // 3 * 3
+        b1 = rng.choice([0.5, 2.0, 3.0, 4.0])
+        os_ = [("EnforceTranslation", kw(location=(0, n3, rng.choice([1, -1])), boost=b1)),
+               rng.choice([("EnforceChanges", kw(boost=1.0, location=None)),
+                           ("EnforceGCContent", kw(target=rng.choice([0.25, 0.75]), window=8, boost=1.0, location=None)),
+                           ("AvoidPattern", kw(pattern=rng.choice(["AA", "CG", "GC", "TA"]), boost=1.0, location=None))])]
+        if rng.random() < 0.5:
+            os_.reverse()
+        cs = [c for c in cs if c[0] not in ("EnforceTranslation", "AvoidChanges", "EnforceChoice", "EnforceSequence")]
     return dict(seq=seq, constraints=tuple(cs), objectives=tuple(os_), cfg=gen_settings(rng),
                 np_seed=rng.randint(0, 10**6))
 
